@@ -35,7 +35,7 @@ def cases(tier, seed):
         yield {"c": c, "m": m}
     # the version of files written by the package: several files, every creating mode, at paths that the package has seen
     # before holding an EMD file / a non-EMD file / nothing (common.fresh_path gives each path such a history)
-    for k in range(9):
+    for k in range(12):
         yield {"c": [1, 0, 0], "m": [1, 0, 0], "written": True, "mode": ["w", "o", "a"][k % 3], "k": k}
 
 
@@ -45,10 +45,13 @@ def impl(case):
         # the version reported for a file the package writes
         import numpy as np
         p = common.fresh_path()
+        # the file is written under one spelling of its path and asked about under the other (str / pathlib.Path)
+        import pathlib
+        pw, pq = (pathlib.Path(p), p) if case.get("k", 0) % 2 else (p, pathlib.Path(p))
         try:
             with common.quiet():
-                emdfile.save(p, emdfile.Array(np.zeros(2)), mode=case.get("mode", "w"))
-            v = emdfile._get_EMD_version(p)
+                emdfile.save(pw, emdfile.Array(np.zeros(2)), mode=case.get("mode", "w"))
+            v = emdfile._get_EMD_version(pq)
         except Exception as e:
             return {"r": False, "no_version_reported_for_a_file_the_package_wrote": type(e).__name__}
         return {"r": bool(emdfile._version_is_geq(v, (1, 0, 0))) and list(v) == case["c"]}
